@@ -24,7 +24,8 @@ type Case struct {
 	Service string `json:"service"`
 }
 
-var ruleSetNames = []string{"literal+catchall", "single+catchall", "single-with-path-params+catchall", "free+catchall", "default-rule-only"}
+var ruleSetNames = []string{"literal+catchall", "single+catchall", "single-with-path-params+catchall", "free+catchall", "default-rule-only",
+	"mixed-settings-on-one-expression"}
 
 var settings = []string{"off", "on", "no_decode"}
 
@@ -79,6 +80,14 @@ func ruleSets(name, setting, base, upstream string) hx.RuleSetFor {
 			rs.Rules = []rulecfg.Rule{mk("free", "/adm/*r"), mk("catchall", "/**")}
 		case "default-rule-only":
 			rs.Rules = []rulecfg.Rule{mk("elsewhere", "/elsewhere")}
+		case "mixed-settings-on-one-expression":
+			// two rules of one rule set on the same path expressions: the first decodes encoded slashes but never
+			// matches (its path_params fail), the second one - with the setting under test - answers
+			first := mk("never", "/adm/:p", rulecfg.ParameterMatcher{Name: "p", Type: "exact", Value: "never-sent"})
+			first.EncodedSlashesHandling = rulecfg.EncodedSlashesOn
+			first2 := mk("never2", "/adm/:p/:q", rulecfg.ParameterMatcher{Name: "q", Type: "exact", Value: "never-sent"})
+			first2.EncodedSlashesHandling = rulecfg.EncodedSlashesOn
+			rs.Rules = []rulecfg.Rule{first, first2, mk("single", "/adm/:p"), mk("single2", "/adm/:p/:q"), mk("catchall", "/**")}
 		}
 
 		return []*rulecfg.RuleSet{rs}
@@ -312,7 +321,7 @@ func Check() *engine.Check {
 			"hex case of a preserved %2F in captured values / upstream path is not judged",
 			"paths longer than 3 segments and other reserved characters are not explored",
 		},
-		Shards: func(string) int { return 15 },
+		Shards: func(string) int { return 16 },
 		Budget: func(tier string) time.Duration {
 			if tier == "thorough" {
 				return 20 * time.Minute
